@@ -51,6 +51,22 @@ def pending_attr(cls):
     raise AnalysisError("cannot identify the pending-prefix attribute passed as i= to ispec.decode in disassembler.__call__")
 
 
+def _always_calls_self(stmt):
+    """does evaluating the statement always call `self(..)`?  (not under a conditional expression arm, the later operands of
+    and/or, a comprehension or a lambda)"""
+    def walk(e):
+        if isinstance(e, ast.Call) and isinstance(e.func, ast.Name) and e.func.id == "self":
+            return True
+        if isinstance(e, ast.IfExp):
+            return walk(e.test)
+        if isinstance(e, ast.BoolOp):
+            return walk(e.values[0])
+        if isinstance(e, (ast.Lambda, ast.ListComp, ast.SetComp, ast.DictComp, ast.GeneratorExp, ast.FunctionDef, ast.ClassDef)):
+            return False
+        return any(walk(c) for c in ast.iter_child_nodes(e))
+    return walk(stmt)
+
+
 def r_reset(repo, tier):
     out = RuleOut(
         "R-RESET",
@@ -65,7 +81,45 @@ def r_reset(repo, tier):
     f = repo.func(CORE, "disassembler.__call__")
     attr = pending_attr(f.node)
 
+    from ..inline import _known
+
+    def _helper(fn_expr):
+        """a helper of the class / module written after the review (not in ref/functions.json), named by fn_expr"""
+        g = None
+        if isinstance(fn_expr, ast.Attribute) and isinstance(fn_expr.value, ast.Name) and fn_expr.value.id in ("self", "cls", "disassembler"):
+            g = cls.methods.get(fn_expr.attr)
+        elif isinstance(fn_expr, ast.Name):
+            g = m.functions.get(fn_expr.id)
+            if g is not None and g.cls is not None:
+                g = None
+        if g is None or (g.mod.rel, g.dqual) in _known():
+            return None
+        return g
+
+    summarising = set()
+
+    def quiet_helper(g):
+        """no statement of the helper can raise, by the same trusted base (a summary, computed on demand)"""
+        if g.key in summarising:
+            return False
+        summarising.add(g.key)
+        try:
+            return not any(may_raise(st) for st in ast.walk(g.node) if isinstance(st, ast.stmt) and st is not g.node and not isinstance(st, (ast.FunctionDef, ast.If, ast.While, ast.For, ast.Try, ast.With))) \
+                and not any(may_raise(getattr(st, "test", None) or getattr(st, "iter", None)) for st in ast.walk(g.node) if isinstance(st, (ast.If, ast.While, ast.For)))
+        finally:
+            summarising.discard(g.key)
+
+    def returns_quiet_lambdas(g):
+        rets = [r for r in ast.walk(g.node) if isinstance(r, ast.Return)]
+        return bool(rets) and all(isinstance(r.value, ast.Lambda) and not any(isinstance(c, ast.Call) for c in ast.walk(r.value.body)) for r in rets)
+
+    def local_quiet_lambda(name):
+        binds = [a for a in ast.walk(f.node) if isinstance(a, ast.Assign) and any(isinstance(t, ast.Name) and t.id == name for t in a.targets)]
+        return bool(binds) and all(isinstance(a.value, ast.Lambda) and not any(isinstance(c, ast.Call) for c in ast.walk(a.value.body)) for a in binds)
+
     def may_raise(node):
+        if node is None:
+            return False
         if isinstance(node, ast.Raise):
             return True
         if isinstance(node, ast.Assert):
@@ -75,6 +129,17 @@ def r_reset(repo, tier):
                 callee = re.sub(r"__inl\d+", "", norm(n.func))
                 if callee in NORAISE_CALLEES:
                     continue
+                # helpers written after the review are summarised with the same trusted base
+                g = _helper(n.func)
+                if g is not None and quiet_helper(g):
+                    continue
+                # the integer-shift lambda, whatever it is called and wherever it is built
+                if isinstance(n.func, ast.Name) and local_quiet_lambda(n.func.id):
+                    continue
+                if isinstance(n.func, ast.Call):
+                    g = _helper(n.func.func)
+                    if g is not None and returns_quiet_lambdas(g):
+                        continue
                 if callee == "self":  # tail recursion: its own exits are covered inductively
                     continue
                 # dict.get on a local (a node of the spec tree), whatever the local is called
@@ -93,6 +158,9 @@ def r_reset(repo, tier):
             for t in s.targets:
                 if _private_attr(t, attr):
                     new = "C" if (isinstance(s.value, ast.Constant) and s.value.value is None) else "D"
+        if s is not None and node.kind in ("stmt", "return") and _always_calls_self(s):
+            # the call into itself after a prefix: by induction on the recursion every exit of the inner call has reset the attribute
+            return "C"
         if label == "exc":
             # the statement did not complete: an assignment to the attribute did not happen
             return st
@@ -213,6 +281,12 @@ def r_rollback(repo, tier):
             elif isinstance(v, ast.Name):
                 # the snapshot is either taken before the append, or cut back by exactly the bytes that were appended
                 appended = {norm(a.value) for a in appends}
+                # a name that was appended also stands for its single definition (the second view resolves definitions)
+                for a in appends:
+                    if isinstance(a.value, ast.Name):
+                        ds = [d for d in ast.walk(fn) if isinstance(d, ast.Assign) and len(d.targets) == 1 and isinstance(d.targets[0], ast.Name) and d.targets[0].id == a.value.id]
+                        if len(ds) == 1:
+                            appended.add(norm(ds[0].value))
                 for n in ast.walk(fn):
                     if isinstance(n, ast.Assign) and any(isinstance(x, ast.Name) and x.id == v.id for x in n.targets):
                         sv = n.value
